@@ -31,6 +31,33 @@ def gen_models(entry_fn, n_quick, n_thorough, sched_frac=0.0, kinds=None):
         return cases
     return gen
 
+def gen_alldiff_wide(entry_fn, n_quick, n_thorough):
+    """all-different over variables whose (small) domains sit in clusters far apart — joint span beyond 128 values, values at
+    127/128/129 above the smallest, negative offsets — plus at most one extra basic constraint: the bit-set engine's masks,
+    Hall-set unions and the hybrid engine's choice are exercised THROUGH solve/enumerate/optimise (seeded change C02c)"""
+    def gen(tier, rng):
+        cases = []
+        for _ in range(n_quick if tier == "quick" else n_thorough):
+            nv = rng.choice([3, 4, 4, 5, 6])
+            base = rng.choice([0, 0, -5, -130, 1000])
+            offs = [rng.choice([0, 0, 1, 100, 126, 127, 128, 129, 200, 255, 256, 300]) for _ in range(nv)]
+            doms = []
+            for o in offs:
+                lo = base + o + rng.randint(-1, 1); w = rng.choice([0, 1, 1, 1, 2])
+                doms.append("%d..%d" % (lo, lo + w))
+            if rng.random() < 0.25:        # one WIDE variable (> 128 values): the hybrid engine keeps it out of the bit-set engine
+                i = rng.randrange(nv); lo = base + rng.randint(-3, 3)
+                doms[i] = "%d..%d" % (lo, lo + rng.randint(129, 210))
+            xs = list(range(nv))
+            if nv > 3 and rng.random() < 0.3: xs = rng.sample(xs, nv - 1)
+            props = ["alldiff " + ",".join("x%d" % i for i in xs)]
+            if rng.random() < 0.4:
+                a, b = rng.sample(range(nv), 2)
+                props.append(rng.choice(["leq x%d x%d", "neq x%d x%d", "lt x%d x%d"]) % (a, b))
+            cases.append(" ; ".join(["|".join(doms)] + props + [entry_fn(rng, nv)]))
+        return cases
+    return gen
+
 def entry_enum(rng, nv): return "enum"
 def entry_first(rng, nv): return "first"
 def entry_opt(rng, nv):
